@@ -138,11 +138,12 @@ def coq_obligations(prop):
 
 
 # ----------------------------------------------------------------------------- correspondence
-def run_correspondence(prop, tier, seed, bins, drv):
+def run_correspondence(prop, tier, seed, bins, drv, keep_impl=None):
     """Same generated cases through the real library (checked and release builds, hooks on)
     and through the extracted model (dbg=true/false); canonical lines are diffed."""
     res = {"cases": 0, "agree": 0, "skipped": 0, "disagreements": [], "profiles": [], "ops": {}}
-    rc, cases, err = sh([bins["debug"], "gen", prop, tier, str(seed)], timeout=600)
+    genbin = bins.get("debug") or list(bins.values())[0]
+    rc, cases, err = sh([genbin, "gen", prop, tier, str(seed)], timeout=600)
     if rc != 0:
         res["disagreements"].append({"kind": "generator-failed", "detail": err[-500:]})
         return res
@@ -182,6 +183,8 @@ def run_correspondence(prop, tier, seed, bins, drv):
             continue
         mo = dict(l.split(" ", 1) for l in model_out.splitlines() if " " in l)
         res["profiles"].append(profile)
+        if keep_impl is not None:
+            keep_impl[profile] = (by_id, im)
         for cid, line in by_id.items():
             a, b = im.get(cid), mo.get(cid)
             if (b is not None and b.startswith("skip:")) or a == "skip":
@@ -219,6 +222,126 @@ def run_search(prop, tier, seed, bins):
                 if profile == "debug":
                     out["samples"] = s["samples"]
     return out
+
+
+def run_extra(cmds, bins):
+    """additional harness subcommands that print FAIL / SUMMARY lines (e.g. golden-check)"""
+    out = {"evaluations": 0, "distinct": 0, "failures": [], "classes": {}, "samples": []}
+    for profile in ("debug", "release"):
+        if profile not in bins:
+            continue
+        for cmd in cmds:
+            rc, so, se = sh([bins[profile]] + cmd, timeout=3000)
+            if rc != 0:
+                out["failures"].append({"class": "extra-crashed:" + cmd[0], "profile": profile, "input": se[-500:]})
+                continue
+            for l in so.splitlines():
+                if l.startswith("FAIL "):
+                    f = json.loads(l[5:])
+                    f["profile"] = profile
+                    f.setdefault("class", cmd[0] + ":" + str(f.get("kind", "")))
+                    out["failures"].append(f)
+                elif l.startswith("SUMMARY "):
+                    sm = json.loads(l[8:])
+                    out["evaluations"] += sm["evaluations"]
+                    out["distinct"] += sm["distinct"]
+                    for k, v in sm["classes"].items():
+                        out["classes"][cmd[0] + ":" + k] = out["classes"].get(cmd[0] + ":" + k, 0) + v
+    return out
+
+
+def merge_search(a, b):
+    a["evaluations"] += b["evaluations"]
+    a["distinct"] += b["distinct"]
+    a["failures"] += b["failures"]
+    for k, v in b["classes"].items():
+        a["classes"][k] = a["classes"].get(k, 0) + v
+    if not a["samples"]:
+        a["samples"] = b.get("samples", [])
+    return a
+
+
+# operations whose output legitimately depends on the backend's Scalar::random
+BACKEND_RANDOM_OPS = {"sk_split", "sk_split_tap", "pc_generate", "pokts_generate", "eg_encrypt", "eg_encrypt_proof",
+                      "pokts_verify_rel"}
+
+
+def run_c19(tier, seed, bins, drv):
+    """Two-build differential run: the pure-Rust backend against the model and against the blst build."""
+    corr = {"cases": 0, "agree": 0, "skipped": 0, "disagreements": [], "profiles": [], "ops": {}}
+    srch = {"evaluations": 0, "distinct": 0, "failures": [], "classes": {}, "samples": []}
+    ok, rbin, log = build_harness("debug", feature="rust")
+    if not ok:
+        corr["disagreements"].append({"kind": "rust-backend-build-failed", "detail": log[-800:]})
+        return corr, srch
+    rbins = {"debug": rbin}
+    for gp in ("C01", "C03", "C07", "C08", "C09", "C11", "C13", "C14", "C15"):
+        keep_r, keep_b = {}, {}
+        c1 = run_correspondence(gp, "quick", seed, rbins, drv, keep_impl=keep_r)       # model vs rust build
+        c2 = run_correspondence(gp, "quick", seed, {"debug": bins["debug"]}, drv, keep_impl=keep_b)
+        for c in (c1,):
+            corr["cases"] += c["cases"]; corr["agree"] += c["agree"]; corr["skipped"] += c["skipped"]
+            corr["disagreements"] += [dict(d, backend="rust") for d in c["disagreements"]]
+            for k, v in c["ops"].items():
+                corr["ops"][k] = corr["ops"].get(k, 0) + v
+        # transcript equality of deterministic outputs between the two builds
+        if "debug" in keep_r and "debug" in keep_b:
+            by_id, im_r = keep_r["debug"]
+            _, im_b = keep_b["debug"]
+            for cid, line in by_id.items():
+                op = line.split()[2]
+                if op in BACKEND_RANDOM_OPS:
+                    continue
+                srch["evaluations"] += 1
+                srch["distinct"] += 1
+                srch["classes"]["transcript_equal:" + op] = srch["classes"].get("transcript_equal:" + op, 0) + 1
+                if im_r.get(cid) != im_b.get(cid):
+                    srch["failures"].append({"class": "backends_differ", "profile": "debug",
+                                             "input": {"case": line, "blst": im_b.get(cid), "rust": im_r.get(cid)}})
+                elif len(srch["samples"]) < 3:
+                    srch["samples"].append({"class": "transcript_equal", "input": {"case": line[:160], "output": (im_b.get(cid) or "")[:80]}})
+    corr["profiles"] = ["debug(rust backend)"]
+    # cross-consumption of randomized artefacts, both directions
+    for (pb, cb, name) in ((bins["debug"], rbin, "blst->rust"), (rbin, bins["debug"], "rust->blst")):
+        rc, doc, err = sh([pb, "c19-produce", tier, str(seed)], timeout=3000)
+        if rc != 0:
+            srch["failures"].append({"class": "c19-produce-crashed", "profile": name, "input": err[-400:]})
+            continue
+        path = os.path.join(CACHE, "c19-%s.json" % name.replace("->", "_to_"))
+        os.makedirs(CACHE, exist_ok=True)
+        open(path, "w").write(doc)
+        rc, so, se = sh([cb, "c19-consume", path], timeout=3000)
+        if rc != 0:
+            srch["failures"].append({"class": "c19-consume-crashed", "profile": name, "input": se[-400:]})
+            continue
+        for l in so.splitlines():
+            if l.startswith("FAIL "):
+                f = json.loads(l[5:]); f["profile"] = name
+                srch["failures"].append(f)
+            elif l.startswith("SUMMARY "):
+                sm = json.loads(l[8:])
+                srch["evaluations"] += sm["evaluations"]; srch["distinct"] += sm["distinct"]
+                for k, v in sm["classes"].items():
+                    srch["classes"][name + ":" + k] = srch["classes"].get(name + ":" + k, 0) + v
+    return corr, srch
+
+
+def source_obligations(prop):
+    """Static obligations read off /repo's working tree."""
+    obs, problems = [], []
+    if prop == "C19":
+        hits = []
+        for f in files_under(os.path.join(REPO, "src"), (".rs",)):
+            for i, l in enumerate(open(f).read().splitlines(), 1):
+                if re.search(r'cfg\(.*feature\s*=', l):
+                    hits.append("%s:%d: %s" % (os.path.relpath(f, REPO), i, l.strip()))
+        allowed = [h for h in hits if h.startswith("src/impls.rs") or h.startswith("src/lib.rs")]
+        extra = [h for h in hits if h not in allowed]
+        obs.append({"name": "only_backend_conditional_item_is_the_inner_types_reexport", "file": "/repo/src",
+                    "status": "discharged" if not extra and len(allowed) <= 3 else "broken", "detail": hits})
+        if extra or len(allowed) > 3:
+            problems.append({"kind": "backend-conditional-code", "where": extra or allowed})
+    return obs, problems
 
 
 # ----------------------------------------------------------------------------- findings
@@ -263,6 +386,8 @@ def setup():
         print("harness %s: %s" % (prof, "ok" if ok else "FAILED\n" + log))
         if not ok:
             return 1
+    ok, _, log = build_harness("debug", feature="rust")
+    print("harness debug (pure-Rust backend): %s" % ("ok" if ok else "FAILED\n" + log))
     sh("coq_makefile -f _CoqProject -o Makefile", cwd=COQ)
     ok, log = build_coq([])
     print("coq: %s" % ("ok" if ok else "FAILED\n" + log[-3000:]))
@@ -346,6 +471,15 @@ def main():
     srch = {"evaluations": 0, "distinct": 0, "failures": [], "classes": {}, "samples": []}
     if bins and cfg.get("search", True):
         srch = run_search(prop, tier, seed, bins)
+    if bins and cfg.get("extra"):
+        srch = merge_search(srch, run_extra(cfg["extra"], bins))
+    if prop == "C19" and "debug" in bins and okd:
+        c19c, c19s = run_c19(tier, seed, bins, drv)
+        corr = c19c
+        srch = merge_search(srch, c19s)
+    sobs, sprob = source_obligations(prop)
+    obligations += sobs
+    problems += sprob
 
     # 5. verdict
     known = load_known()
@@ -409,9 +543,9 @@ def main():
         "violations": violations,
     }
     json.dump(ev, open(os.path.join(EVID, prop + ".json"), "w"), indent=1)
-    print("%s tier=%s obligations=%d/%d correspondence=%d/%d search=%d evals, %d failures, %.0fs" % (
-        prop, tier, discharged, len(obligations), corr["agree"], corr["cases"] * max(1, len(corr["profiles"])),
-        srch["evaluations"], len(srch["failures"]), time.time() - t0))
+    print("%s tier=%s obligations=%d/%d correspondence=%d/%d (skipped %d) search=%d evals, %d failures (%d known, %d new), %.0fs" % (
+        prop, tier, discharged, len(obligations), corr["agree"], corr["cases"] * max(1, len(corr["profiles"])), corr["skipped"],
+        srch["evaluations"], len(srch["failures"]), len(known_hits), len(new_failures), time.time() - t0))
     sys.exit(1 if violations else 0)
 
 
